@@ -356,7 +356,13 @@ def run_cli(argv, agent, max_reads=500, on_read=None):
     def recording_ask(*args, **kwargs):
         call = {"args": canon(list(args)), "kwargs": canon(kwargs), "returned": None}
         res["builder_calls"].append(call)
-        r = real_ask(*args, **kwargs)
+        try:
+            r = real_ask(*args, **kwargs)
+        except SimAbort:
+            raise
+        except BaseException as e:  # noqa: B902 - observed, then passed on unchanged
+            call["exc"] = exc_info(e)
+            raise
         call["returned"] = to_text(r) if isinstance(r, (text_type, binary_type)) else canon(r)
         return r
 
